@@ -1,7 +1,12 @@
+// C24 correspondence harness: drives the real clientConfigSessionHandler / clientPlaySessionHandler
+// plugin-message paths (through export_verif_c24.go) over recording connections.
 package main
 
 import (
 	"fmt"
+	"strconv"
+	"strings"
+	"time"
 
 	"go.minekube.com/gate/pkg/edition/java/config"
 	"go.minekube.com/gate/pkg/edition/java/proto/packet"
@@ -10,79 +15,542 @@ import (
 	"go.minekube.com/gate/pkg/edition/java/proto/version"
 	"go.minekube.com/gate/pkg/edition/java/proxy"
 	"go.minekube.com/gate/pkg/edition/java/proxy/phase"
+	"go.minekube.com/gate/pkg/gate/proto"
 
 	"verifharness/c18/rc"
+	"verifharness/hx"
 )
 
-func dump(name string, c *rc.Conn) {
-	for _, e := range c.Log(0) {
-		switch p := e.Packet.(type) {
-		case *plugin.Message:
-			fmt.Printf("  %s %s plugin %s len=%d\n", name, e.Kind, p.Channel, len(p.Data))
-		default:
-			fmt.Printf("  %s %s %T\n", name, e.Kind, e.Packet)
-		}
-	}
+const nB = 4
+
+type side struct {
+	client *rc.Conn
+	player *proxy.C24Player
+	conns  [nB]*rc.Conn
+	scs    [nB]*proxy.C24ServerConn
+	seen   [nB]int
+	seenC  int
+	next   int
 }
 
-func main() {
+type world struct {
+	px   *proxy.Proxy
+	c    side
+	cfg  *proxy.C24Config
+	p    side
+	play *proxy.C24Play
+}
+
+var zeros = make([]byte, 5<<20)
+
+func newSide(px *proxy.Proxy, name string, st *state.Registry, pr proto.Protocol, ph phase.BackendConnectionPhase) side {
+	s := side{client: rc.New(st, pr)}
+	s.player = proxy.C24NewPlayer(px, s.client, name)
+	for i := range s.conns {
+		s.conns[i] = rc.New(st, pr)
+		s.scs[i] = proxy.C24NewServerConn(s.player, name+strconv.Itoa(i), s.conns[i], ph)
+	}
+	return s
+}
+
+func newWorld() *world {
 	cfg := config.DefaultConfig
 	px, err := proxy.New(proxy.Options{Config: &cfg})
 	if err != nil {
 		panic(err)
 	}
-	client := rc.New(state.Config, version.Minecraft_1_20_3.Protocol)
-	pl := proxy.C24NewPlayer(px, client, "alice")
-	b0 := rc.New(state.Config, version.Minecraft_1_20_3.Protocol)
-	b1 := rc.New(state.Config, version.Minecraft_1_20_3.Protocol)
-	s0 := proxy.C24NewServerConn(pl, "s0", b0, phase.UnknownBackendPhase)
-	s1 := proxy.C24NewServerConn(pl, "s1", b1, phase.UnknownBackendPhase)
-	h := proxy.C24NewConfigHandler(pl)
-	proxy.C24SetInFlight(pl, s0)
-	h.HandlePluginMessage("v:m0", []byte{1, 2, 3})
-	fmt.Println(h.Queue())
-	fmt.Println("flush err:", h.Flush(s0))
-	h.HandlePluginMessage("v:m1", []byte{1})
-	fmt.Println("finish:", h.BackendFinish(s0))
-	proxy.C24SetConnectedServer(pl, s0)
-	// switch
-	proxy.C24SetConnectedServer(pl, nil)
-	proxy.C24SetInFlight(pl, s1)
-	h.HandlePluginMessage("v:m2", []byte{1})
-	fmt.Println(h.Queue())
-	fmt.Println("finish:", h.BackendFinish(s1))
-	dump("b0", b0)
-	dump("b1", b1)
-	dump("client", client)
-	// overflow
-	for i := 0; i < 1030; i++ {
-		h.HandlePluginMessage(fmt.Sprintf("v:x%d", i), nil)
-	}
-	fmt.Println(h.Queue())
-	dump("client", client)
+	w := &world{px: px}
+	w.c = newSide(px, "alice", state.Config, version.Minecraft_1_20_3.Protocol, phase.UnknownBackendPhase)
+	w.cfg = proxy.C24NewConfigHandler(w.c.player)
+	w.p = newSide(px, "bob", state.Play, version.Minecraft_1_12_2.Protocol, phase.VanillaBackendPhase)
+	w.play = proxy.C24NewPlayHandler(w.p.player)
+	return w
+}
 
-	// play handler
-	client2 := rc.New(state.Play, version.Minecraft_1_12_2.Protocol)
-	pl2 := proxy.C24NewPlayer(px, client2, "bob")
-	c0 := rc.New(state.Play, version.Minecraft_1_12_2.Protocol)
-	t0 := proxy.C24NewServerConn(pl2, "t0", c0, phase.VanillaBackendPhase)
-	ph := proxy.C24NewPlayHandler(pl2)
-	proxy.C24SetConnectedServer(pl2, t0)
-	proxy.C24SetClientPhase(pl2, phase.NotStartedLegacyForgeHandshakeClientPhase)
-	ph.HandlePluginMessage("v:p0", []byte{9})
-	fmt.Println(ph.Queue())
-	proxy.C24SetClientPhase(pl2, phase.VanillaClientPhase)
-	ph.HandlePluginMessage("v:p1", []byte{9})
-	ph.FlushQueued()
-	dump("c0", c0)
-	c1 := rc.New(state.Play, version.Minecraft_1_12_2.Protocol)
-	t1 := proxy.C24NewServerConn(pl2, "t1", c1, phase.UnknownBackendPhase)
-	proxy.C24SetClientPhase(pl2, phase.NotStartedLegacyForgeHandshakeClientPhase)
-	ph.HandlePluginMessage("v:p2", []byte{9})
-	err = ph.BackendJoinGame(&packet.JoinGame{}, t1)
-	fmt.Println("join err", err)
-	err = ph.BackendJoinGame(&packet.JoinGame{}, t1)
-	fmt.Println("join2 err", err)
-	dump("c1", c1)
-	dump("client2", client2)
+// events collects what happened on the backend connections (plugin messages and flushes) and whether
+// the client connection was closed, since the last call.
+func (s *side) events() string {
+	var out []string
+	for i, c := range s.conns {
+		for _, e := range c.Log(s.seen[i]) {
+			s.seen[i]++
+			switch e.Kind {
+			case "wp", "bp":
+				pm, ok := e.Packet.(*plugin.Message)
+				if !ok {
+					continue
+				}
+				k := "w"
+				if e.Kind == "bp" {
+					k = "b"
+				}
+				idx := strings.TrimPrefix(pm.Channel, "v:m")
+				if _, err := strconv.Atoi(idx); err != nil {
+					idx = "999999999" // a plugin message the harness did not send
+				}
+				out = append(out, fmt.Sprintf("%d:%s:%s", i, k, idx))
+			case "flush":
+				out = append(out, fmt.Sprintf("%d:f", i))
+			}
+		}
+	}
+	for _, e := range s.client.Log(s.seenC) {
+		s.seenC++
+		if e.Kind == "close" {
+			out = append(out, "D")
+		}
+	}
+	if len(out) == 0 {
+		return "-"
+	}
+	return strings.Join(out, ",")
+}
+
+func b01(b bool) string {
+	if b {
+		return "1"
+	}
+	return "0"
+}
+
+func (w *world) cfgLine(err bool) string {
+	n, by, ov := w.cfg.Queue()
+	r := "-"
+	for i, sc := range w.c.scs {
+		if w.cfg.ReadyIs(sc) {
+			r = strconv.Itoa(i)
+		}
+	}
+	e := ""
+	if err {
+		e = "e "
+	}
+	return fmt.Sprintf("%s%s q=%d,%d,%s r=%s", e, w.c.events(), n, by, b01(ov), r)
+}
+func (w *world) playLine() string {
+	n, by, ov := w.play.Queue()
+	return fmt.Sprintf("%s q=%d,%d,%s", w.p.events(), n, by, b01(ov))
+}
+
+func (w *world) apply(op string) string {
+	f := strings.Fields(op)
+	atoi := func(s string) int { v, _ := strconv.Atoi(s); return v }
+	csc := func(s string) *proxy.C24ServerConn {
+		if s == "-" {
+			return nil
+		}
+		return w.c.scs[atoi(s)]
+	}
+	psc := func(s string) *proxy.C24ServerConn {
+		if s == "-" {
+			return nil
+		}
+		return w.p.scs[atoi(s)]
+	}
+	switch f[0] {
+	case "caps":
+		return fmt.Sprintf("%d %d", proxy.C24MaxMessages(), proxy.C24MaxBytes())
+	case "cmsg":
+		w.cfg.HandlePluginMessage("v:m"+f[1], zeros[:atoi(f[2])])
+		return w.cfgLine(false)
+	case "cburst":
+		for k := 0; k < atoi(f[2]); k++ {
+			w.cfg.HandlePluginMessage("v:m"+strconv.Itoa(atoi(f[1])+k), zeros[:atoi(f[3])])
+		}
+		return w.cfgLine(false)
+	case "cflush":
+		return w.cfgLine(w.cfg.Flush(csc(f[1])))
+	case "clogin":
+		// handleServerLoginSuccess flushes the config queue only if the client's active handler is the
+		// config handler; with the client in PLAY it calls doSwitch instead (no flush)
+		if f[2] == "cfg" {
+			return w.cfgLine(w.cfg.Flush(csc(f[1])))
+		}
+		return w.cfgLine(false)
+	case "cfinish":
+		w.cfg.BackendFinish(csc(f[1]))
+		return w.cfgLine(false)
+	case "ccur":
+		proxy.C24SetConnectedServer(w.c.player, csc(f[1]))
+		return w.cfgLine(false)
+	case "cinfl":
+		proxy.C24SetInFlight(w.c.player, csc(f[1]))
+		return w.cfgLine(false)
+	case "cconn":
+		if f[2] == "1" {
+			proxy.C24SetBackendConn(w.c.scs[atoi(f[1])], w.c.conns[atoi(f[1])])
+		} else {
+			proxy.C24SetBackendConn(w.c.scs[atoi(f[1])], nil)
+		}
+		return w.cfgLine(false)
+	case "pmsg":
+		w.play.HandlePluginMessage("v:m"+f[1], zeros[:atoi(f[2])])
+		return w.playLine()
+	case "pburst":
+		for k := 0; k < atoi(f[2]); k++ {
+			w.play.HandlePluginMessage("v:m"+strconv.Itoa(atoi(f[1])+k), zeros[:atoi(f[3])])
+		}
+		return w.playLine()
+	case "pflush":
+		w.play.FlushQueued()
+		return w.playLine()
+	case "pjoin":
+		_ = w.play.BackendJoinGame(&packet.JoinGame{}, psc(f[1]))
+		return w.playLine()
+	case "pdeact":
+		w.play.Deactivated()
+		return w.playLine()
+	case "pcur":
+		proxy.C24SetConnectedServer(w.p.player, psc(f[1]))
+		return w.playLine()
+	case "pinfl":
+		proxy.C24SetInFlight(w.p.player, psc(f[1]))
+		return w.playLine()
+	case "pconn":
+		if f[2] == "1" {
+			proxy.C24SetBackendConn(w.p.scs[atoi(f[1])], w.p.conns[atoi(f[1])])
+		} else {
+			proxy.C24SetBackendConn(w.p.scs[atoi(f[1])], nil)
+		}
+		return w.playLine()
+	case "pstate":
+		if f[2] == "p" {
+			w.p.conns[atoi(f[1])].ForceState(state.Play)
+		} else {
+			w.p.conns[atoi(f[1])].ForceState(state.Config)
+		}
+		return w.playLine()
+	case "pbphase":
+		ph := phase.VanillaBackendPhase
+		switch f[2] {
+		case "u":
+			ph = phase.UnknownBackendPhase
+		case "t":
+			ph = phase.InTransitionBackendPhase
+		}
+		proxy.C24SetBackendPhase(w.p.scs[atoi(f[1])], ph)
+		return w.playLine()
+	case "pcphase":
+		if f[1] == "v" {
+			proxy.C24SetClientPhase(w.p.player, phase.VanillaClientPhase)
+		} else {
+			proxy.C24SetClientPhase(w.p.player, phase.NotStartedLegacyForgeHandshakeClientPhase)
+		}
+		return w.playLine()
+	}
+	return "bad-op"
+}
+
+type gen struct {
+	run *hx.Run
+	w   *world
+	cn  int // next send index, CONFIG world
+	pn  int
+}
+
+func (g *gen) do(class, op string) {
+	if op == "reset" {
+		g.w = newWorld()
+		g.cn, g.pn = 0, 0
+		g.run.Case(class, op, "-")
+		return
+	}
+	w := g.w
+	out := hx.Guard(60*time.Second, func() string { return w.apply(op) })
+	g.run.Case(class, op, out)
+}
+
+// cm / pm emit a message op with the next send index.
+func (g *gen) cm(class string, n int) { g.do(class, fmt.Sprintf("cmsg %d %d", g.cn, n)); g.cn++ }
+func (g *gen) pm(class string, n int) { g.do(class, fmt.Sprintf("pmsg %d %d", g.pn, n)); g.pn++ }
+func (g *gen) cburst(class string, k, n int) {
+	g.do(class, fmt.Sprintf("cburst %d %d %d", g.cn, k, n))
+	g.cn += k
+}
+func (g *gen) pburst(class string, k, n int) {
+	g.do(class, fmt.Sprintf("pburst %d %d %d", g.pn, k, n))
+	g.pn += k
+}
+
+var lens = []int{0, 0, 1, 1, 2, 7, 8, 64, 255, 1000, 4096, 65536}
+
+func (g *gen) pickLen() int {
+	r := g.run.Rng
+	if r.Chance(1, 40) {
+		return hx.Pick(r, []int{1 << 20, (4 << 20) - 1, 4 << 20, (4 << 20) + 1, 2 << 20, 3 << 20})
+	}
+	return hx.Pick(r, lens)
+}
+
+func optB(r *hx.Rng) string {
+	if r.Chance(1, 4) {
+		return "-"
+	}
+	return strconv.Itoa(r.Intn(nB))
+}
+
+// cfgSession: a protocol-shaped CONFIG history — initial login (possibly with failed attempts), messages
+// before and after the backend is ready, then server switches whose login success finds the client in PLAY.
+func (g *gen) cfgSession(class string, withSwitch bool) {
+	r := g.run.Rng
+	g.do(class, "reset")
+	s := r.Intn(nB)
+	for k := r.Intn(4); k > 0; k-- {
+		g.cm(class, g.pickLen()) // before any backend is in flight
+	}
+	for attempts := r.Intn(3); attempts > 0; attempts-- { // failed attempts: in flight, some messages, reset
+		g.do(class, fmt.Sprintf("cinfl %d", r.Intn(nB)))
+		for k := r.Intn(3); k > 0; k-- {
+			g.cm(class, g.pickLen())
+		}
+		g.do(class, "cinfl -")
+	}
+	g.do(class, fmt.Sprintf("cinfl %d", s))
+	for k := r.Intn(6); k > 0; k-- {
+		g.cm(class, g.pickLen())
+	}
+	g.do(class, fmt.Sprintf("clogin %d cfg", s))
+	for k := r.Intn(6); k > 0; k-- {
+		g.cm(class, g.pickLen())
+	}
+	g.do(class, fmt.Sprintf("cfinish %d", s))
+	g.do(class, fmt.Sprintf("ccur %d", s))
+	if !withSwitch {
+		return
+	}
+	for sw := 1 + r.Intn(2); sw > 0; sw-- {
+		t := (s + 1 + r.Intn(nB-1)) % nB
+		g.do(class, fmt.Sprintf("cinfl %d", t))
+		g.do(class, fmt.Sprintf("clogin %d play", t)) // client is in PLAY: doSwitch, no flush
+		g.do(class, "ccur -")                         // doSwitch: setConnectedServer(nil)
+		for k := 1 + r.Intn(4); k > 0; k-- {
+			g.cm(class, g.pickLen()) // client is now in CONFIG again
+		}
+		g.do(class, fmt.Sprintf("cfinish %d", t))
+		g.do(class, fmt.Sprintf("ccur %d", t))
+		s = t
+	}
+}
+
+// cfgRandom: arbitrary interleaving of messages, flushes, pointer changes and connection losses.
+func (g *gen) cfgRandom(class string, n int) {
+	r := g.run.Rng
+	g.do(class, "reset")
+	for i := 0; i < n; i++ {
+		switch k := r.Intn(100); {
+		case k < 55:
+			g.cm(class, g.pickLen())
+		case k < 70:
+			g.do(class, fmt.Sprintf("cflush %d", r.Intn(nB)))
+		case k < 80:
+			g.do(class, "cinfl "+optB(r))
+		case k < 90:
+			g.do(class, "ccur "+optB(r))
+		case k < 96:
+			g.do(class, fmt.Sprintf("cconn %d %s", r.Intn(nB), b01(r.Chance(2, 3))))
+		case k < 98:
+			g.cburst(class, 1+r.Intn(600), hx.Pick(r, []int{0, 1, 100, 5000}))
+		default:
+			g.cburst(class, 1+r.Intn(6), hx.Pick(r, []int{1 << 20, 1<<20 + 1, 700000}))
+		}
+	}
+}
+
+// playSeq: PRE-JOIN histories.  Phases become complete only together with a flush (completeClient.onHandle)
+// or at a join (OnFirstJoin / completeJoin), as in the phase code.
+func (g *gen) playSeq(class string, n int) {
+	r := g.run.Rng
+	g.do(class, "reset")
+	for i := 0; i < n; i++ {
+		switch k := r.Intn(100); {
+		case k < 45:
+			g.pm(class, g.pickLen())
+		case k < 52:
+			g.do(class, "pcphase n")
+		case k < 59:
+			g.do(class, "pcphase v")
+			g.do(class, "pflush")
+		case k < 64:
+			g.do(class, "pflush")
+		case k < 72:
+			d := r.Intn(nB)
+			g.do(class, fmt.Sprintf("pinfl %d", d))
+			if r.Chance(1, 2) {
+				g.do(class, fmt.Sprintf("pbphase %d u", d))
+			}
+			for j := r.Intn(3); j > 0; j-- {
+				g.pm(class, g.pickLen())
+			}
+			g.do(class, fmt.Sprintf("pjoin %d", d))
+			g.do(class, fmt.Sprintf("pcur %d", d))
+		case k < 77:
+			// the connected server changes only at a join (above) or is dropped (doSwitch / disconnect)
+			g.do(class, "pcur -")
+		case k < 80:
+			g.do(class, "pinfl "+optB(r))
+		case k < 84:
+			g.do(class, fmt.Sprintf("pconn %d %s", r.Intn(nB), b01(r.Chance(2, 3))))
+		case k < 88:
+			g.do(class, fmt.Sprintf("pstate %d %s", r.Intn(nB), hx.Pick(r, []string{"p", "p", "c"})))
+		case k < 91:
+			b := r.Intn(nB)
+			g.do(class, fmt.Sprintf("pbphase %d %s", b, hx.Pick(r, []string{"u", "t"})))
+		case k < 94:
+			g.do(class, "pdeact")
+		case k < 97:
+			g.pburst(class, 1+r.Intn(600), hx.Pick(r, []int{0, 1, 100, 5000}))
+		default:
+			g.pburst(class, 1+r.Intn(6), hx.Pick(r, []int{1 << 20, 1<<20 + 1, 700000}))
+		}
+	}
+}
+
+func main() {
+	run := hx.Start()
+	g := &gen{run: run}
+	sc := func(class string, f func()) { g.do(class, "reset"); f() }
+
+	// ---- fixed regression scripts ----
+	sc("fixed", func() { g.do("fixed", "caps") })
+	// queued until ready, flushed in order, later message direct and after them
+	sc("fixed", func() {
+		g.do("fixed", "cinfl 0")
+		g.cm("fixed", 3)
+		g.cm("fixed", 0)
+		g.do("fixed", "clogin 0 cfg")
+		g.cm("fixed", 5)
+		g.do("fixed", "cfinish 0")
+		g.do("fixed", "cflush 0")
+	})
+	// no server at all: queued, delivered to the first backend that becomes ready
+	sc("fixed", func() {
+		g.cm("fixed", 1)
+		g.do("fixed", "cinfl 2")
+		g.cm("fixed", 1)
+		g.do("fixed", "cflush 2")
+		g.cm("fixed", 1)
+	})
+	// flush to a backend without connection fails and keeps the queue
+	sc("fixed", func() {
+		g.do("fixed", "cinfl 1")
+		g.cm("fixed", 2)
+		g.do("fixed", "cconn 1 0")
+		g.do("fixed", "cflush 1")
+		g.do("fixed", "cconn 1 1")
+		g.do("fixed", "cflush 1")
+	})
+	// ready backend loses its connection: direct write impossible, message dropped
+	sc("fixed", func() {
+		g.do("fixed", "cinfl 0")
+		g.do("fixed", "cflush 0")
+		g.do("fixed", "cconn 0 0")
+		g.cm("fixed", 1)
+	})
+	// count cap: 1024 fit, the 1025th disconnects, the latch stays
+	sc("fixed", func() {
+		g.do("fixed", "cinfl 0")
+		g.cburst("fixed", 1024, 1)
+		g.cm("fixed", 1)
+		g.cm("fixed", 1)
+		g.do("fixed", "cflush 0")
+		g.cm("fixed", 1)
+	})
+	// byte cap: exactly 4 MiB fits, one more byte does not
+	sc("fixed", func() { g.do("fixed", "cinfl 0"); g.cm("fixed", 4<<20); g.cm("fixed", 0); g.cm("fixed", 1) })
+	sc("fixed", func() { g.do("fixed", "cinfl 0"); g.cm("fixed", (4<<20)+1) })
+	// the flush resets the byte counter
+	sc("fixed", func() {
+		g.do("fixed", "cinfl 0")
+		g.cm("fixed", 3<<20)
+		g.do("fixed", "cflush 0")
+		g.do("fixed", "cinfl 1")
+		g.cm("fixed", 3<<20)
+		g.cm("fixed", 1<<20)
+		g.cm("fixed", 1)
+	})
+	// the switch defect (known finding): login success of backend 1 with the client in PLAY does not flush
+	sc("fixed", func() {
+		g.do("fixed", "cinfl 0")
+		g.do("fixed", "clogin 0 cfg")
+		g.do("fixed", "cfinish 0")
+		g.do("fixed", "ccur 0")
+		g.do("fixed", "cinfl 1")
+		g.do("fixed", "clogin 1 play")
+		g.do("fixed", "ccur -")
+		g.cm("fixed", 3)
+		g.do("fixed", "cfinish 1")
+		g.do("fixed", "ccur 1")
+	})
+	// PRE-JOIN: queued while the client phase is incomplete, flushed on completion, then direct
+	sc("fixed", func() {
+		g.do("fixed", "pcur 0")
+		g.do("fixed", "pcphase n")
+		g.pm("fixed", 1)
+		g.pm("fixed", 2)
+		g.do("fixed", "pcphase v")
+		g.do("fixed", "pflush")
+		g.pm("fixed", 3)
+	})
+	// queued messages go to the destination at JoinGame
+	sc("fixed", func() {
+		g.do("fixed", "pcur 0")
+		g.do("fixed", "pbphase 0 u")
+		g.pm("fixed", 1)
+		g.do("fixed", "pinfl 1")
+		g.do("fixed", "pjoin 1")
+		g.do("fixed", "pcur 1")
+		g.pm("fixed", 1)
+		g.do("fixed", "pjoin 1")
+	})
+	// discarded while no backend is connected / backend not in PLAY / in transition (known finding for the first two)
+	sc("fixed", func() {
+		g.pm("fixed", 1)
+		g.do("fixed", "pinfl 0")
+		g.pm("fixed", 1)
+		g.do("fixed", "pjoin 0")
+		g.do("fixed", "pcur 0")
+		g.pm("fixed", 1)
+	})
+	sc("fixed", func() {
+		g.do("fixed", "pcur 0")
+		g.do("fixed", "pstate 0 c")
+		g.pm("fixed", 1)
+		g.do("fixed", "pstate 0 p")
+		g.pm("fixed", 1)
+	})
+	sc("fixed", func() {
+		g.do("fixed", "pcur 0")
+		g.do("fixed", "pbphase 0 t")
+		g.pm("fixed", 1)
+		g.do("fixed", "pconn 0 0")
+		g.pm("fixed", 1)
+	})
+	// caps and Deactivated
+	sc("fixed", func() {
+		g.do("fixed", "pcur 0")
+		g.do("fixed", "pcphase n")
+		g.pburst("fixed", 1024, 1)
+		g.pm("fixed", 1)
+		g.pm("fixed", 1)
+		g.do("fixed", "pdeact")
+		g.pm("fixed", 1)
+		g.pburst("fixed", 1024, 0)
+		g.do("fixed", "pflush")
+	})
+	sc("fixed", func() { g.do("fixed", "pcur 0"); g.do("fixed", "pcphase n"); g.pm("fixed", 4<<20); g.pm("fixed", 1) })
+
+	// ---- generated ----
+	for i := 0; i < run.Scale(120, 1500); i++ {
+		g.cfgSession("cfg-session", false)
+	}
+	for i := 0; i < run.Scale(60, 700); i++ {
+		g.cfgSession("cfg-switch", true)
+	}
+	for i := 0; i < run.Scale(120, 1200); i++ {
+		g.cfgRandom("cfg-random", 10+run.Rng.Intn(run.Scale(60, 150)))
+	}
+	for i := 0; i < run.Scale(150, 1500); i++ {
+		g.playSeq("play", 10+run.Rng.Intn(run.Scale(60, 150)))
+	}
+	run.Finish()
 }
